@@ -309,6 +309,145 @@ struct Int {
 };
 
 ////////////////////////////////////////////////////////////////////////////////
+// overflow_integer: compound assignment, ++/--, conversion between overflow_integers and explicit cast back to a built-in.
+// x op= y is x = x op y converted back to x's rep under the tag, so overflow is triggered iff the exact result leaves the range of L.
+template<class Tag, class L, class R, bool Total>
+struct Compound {
+    static constexpr int n_ops = 9;
+    static char const* opname(int op)
+    {
+        static char const* n[] = {"+=", "-=", "*=", "++pre", "post++", "--pre", "post--", "convert-wrapper", "cast-to-builtin"};
+        return n[op];
+    }
+    static constexpr bool mixed = is_signed_int_v<L> != is_signed_int_v<R>;
+    using OL = cnl::overflow_integer<L, Tag>;
+    using OR = cnl::overflow_integer<R, Tag>;
+    static void check(int op, L a, R b, Outcome& o, std::string* d)
+    {
+        if (d) *d = std::string(opname(op)) + " a=" + istr(a) + " b=" + istr(b);
+        o.fp = fpn(a, b, op + 100);
+        mpz_class za = to_mpz(a), zb = to_mpz(b), exact, lo = zmin<L>(), hi = zmax<L>();
+        switch (op) {
+        case 0: exact = za + zb; break;
+        case 1: exact = za - zb; break;
+        case 2: exact = za * zb; break;
+        case 3:
+        case 4: exact = za + 1; break;
+        case 5:
+        case 6: exact = za - 1; break;
+        case 7: exact = za, lo = zmin<R>(), hi = zmax<R>(); break;  // OR{OL{a}}
+        default: exact = za, lo = zmin<R>(), hi = zmax<R>(); break;  // static_cast<R>(OL{a})
+        }
+        // cause regions of the underlying binary operator (same as Int<>): decided on the built-in expression's result type
+        char const* cause = "none";
+        if (op <= 2) {
+            using Res = decltype(a + b);
+            if (op == 2 && is_signed_int_v<Res> && is_signed_int_v<R> && zb == -1 && za >= 0)
+                cause = "nonnegative-times-minus-one";
+            else if (mixed && !is_signed_int_v<Res> && (za < 0 || zb < 0))
+                cause = "negative-operand-unsigned-result";
+            else if (op == 1 && !mixed && is_signed_int_v<R> && bits_v<R> < bits_v<Res> && zb < 0)
+                cause = "rhs-narrower-than-result-negative";
+        }
+        // two stages, as "x = x op y converted back" says: the operator in the built-in result type, then the conversion to L
+        mpz_class lo1 = lo, hi1 = hi;
+        if (op <= 2) {
+            using Res = decltype(a + b);
+            lo1 = zmin<Res>(), hi1 = zmax<Res>();
+        } else if (op <= 6) {
+            using Res = decltype(a + 1);
+            lo1 = zmin<Res>(), hi1 = zmax<Res>();
+        }
+        constexpr int kind = tag_info<Tag>::kind;
+        int side = 0;  // side of the first stage that triggers
+        mpz_class value = exact;
+        int r1 = region_of(value, lo1, hi1);
+        if (r1) side = r1, value = r1 > 0 ? hi1 : lo1;
+        int r2 = region_of(value, lo, hi);
+        if (r2) {
+            if (!side) side = r2;
+            value = r2 > 0 ? hi : lo;
+        }
+        std::string const prefix = std::string("compound") + opname(op) + (mixed && op <= 2 ? "/mixed/" : "/same/") + cause;
+        Obs obs;
+        mpz_class returned;
+        bool have_returned = false;
+        observe(o, obs, [&] {
+            OL x{a};
+            if (op == 0) x += OR{b};
+            if (op == 1) x -= OR{b};
+            if (op == 2) x *= OR{b};
+            if (op == 3) returned = to_mpz(cnl::_impl::to_rep(++x)), have_returned = true;
+            if (op == 4) returned = to_mpz(cnl::_impl::to_rep(x++)), have_returned = true;
+            if (op == 5) returned = to_mpz(cnl::_impl::to_rep(--x)), have_returned = true;
+            if (op == 6) returned = to_mpz(cnl::_impl::to_rep(x--)), have_returned = true;
+            if (op == 7) return to_mpz(cnl::_impl::to_rep(OR{x}));
+            if (op == 8) return to_mpz(static_cast<R>(x));
+            return to_mpz(cnl::_impl::to_rep(x));
+        });
+        if (obs.trapped) {
+            o.fclass = prefix + "/" + o.fclass;
+            return;
+        }
+        if constexpr (Total) {
+            return o.pass(a == int_min<L>() || a == int_max<L>() || a == 0, opname(op));
+        } else {
+            std::string got = obs.signal ? std::string(obs.how) + (obs.signal == 1 ? ":positive" : obs.signal == -1 ? ":negative" : ":other") : "value " + zstr(obs.value);
+            if (side == 0) {
+                if (obs.signal) return o.fail(prefix + "/in-range-reported", "exact result " + zstr(exact) + " is in range at both stages, got " + got);
+                if (obs.value != exact) return o.fail(prefix + "/in-range-wrong-value", "expected " + zstr(exact) + " got " + got);
+                if (have_returned) {
+                    mpz_class want = (op == 3 || op == 5) ? exact : za;  // pre returns the new value, post the old one
+                    if (returned != want) return o.fail(prefix + "/returned-value", "expected " + zstr(want) + " got " + zstr(returned));
+                }
+                return o.pass(true, opname(op));
+            }
+            if (kind == 0) {
+                if (obs.signal) return o.fail(prefix + "/signalled-under-saturated", got);
+                if (obs.value != value) return o.fail(prefix + "/saturated-value-wrong", "expected " + zstr(value) + " got " + got);
+                return o.pass(true, "saturated");
+            }
+            char const* how = kind == 1 ? "throw" : "abort";
+            if (!obs.signal) return o.fail(prefix + "/overflow-not-detected", std::string("expected ") + how + " got " + got);
+            if (std::string(obs.how) != how) return o.fail(prefix + "/wrong-signal-kind", got);
+            if (obs.signal != side) return o.fail(prefix + "/reported-wrong-polarity", got);
+            return o.pass(true, "signalled");
+        }
+    }
+    static void run(Words& w, Outcome& o, std::string* d)
+    {
+        int op = int(draw_small(w, 0, n_ops - 1));
+        L a = draw_int<L>(w);
+        R b = draw_int<R>(w);
+        if (w.next() % 2) {  // aim at the limits of L
+            mpz_class limit = (w.next() & 1) ? zmax<L>() : zmin<L>();
+            long dlt = draw_small(w, 0, 3) - 1;
+            mpz_class want = op == 0 ? mpz_class(limit - to_mpz(a) + dlt) : op == 1 ? mpz_class(to_mpz(a) - limit - dlt) : mpz_class(0);
+            if (op <= 1 && fits<R>(want)) b = from_mpz<R>(want);
+            if (op >= 3 && op <= 6) a = from_mpz<L>(limit + ((limit > 0) ? -mpz_class(draw_small(w, 0, 1)) : mpz_class(draw_small(w, 0, 1))));
+            if (op >= 7) {
+                mpz_class l2 = (w.next() & 1) ? zmax<R>() : zmin<R>();
+                mpz_class v = l2 + dlt;
+                if (fits<L>(v)) a = from_mpz<L>(v);
+            }
+        }
+        check(op, a, b, o, d);
+    }
+    static constexpr std::uint64_t enum_size() { return (bits_v<L> + bits_v<R> <= 16) ? (std::uint64_t{n_ops} << 16) : 0; }
+    static void run_enum(std::uint64_t idx, Outcome& o, std::string* d)
+    {
+        using UL = make_unsigned_t<L>;
+        using UR = make_unsigned_t<R>;
+        check(int(idx >> 16), static_cast<L>(static_cast<UL>(idx)), static_cast<R>(static_cast<UR>(idx >> 8)), o, d);
+    }
+    static void reg()
+    {
+        add_site({std::string(Total ? "C07|" : "C06|") + "compound|" + tag_info<Tag>::name + "|" + tname<L>::get() + "|" + tname<R>::get() + "|" + path_name, run,
+                  enum_size(), run_enum});
+    }
+};
+
+////////////////////////////////////////////////////////////////////////////////
 // floating-point source -> integer destination under an overflow tag
 template<class Tag, class F, class D, int Route, bool Total>
 struct Flt {
